@@ -15,3 +15,4 @@ import Resvg.Props.C14
 import Resvg.Props.C15
 import Resvg.Props.C16
 import Resvg.Props.C17
+import Resvg.Props.C18
